@@ -402,7 +402,7 @@ def verify_signable(signable, authorized_pub_keys, threshold, gpg=False):
             # TODO: ✅ Make this a warning instead.
             print(
                 'Ignoring signature from "key" with public key value that '
-                "does not look like a key value: " + str(pubkey_hex)
+                "does not look like a key value: " + ascii(pubkey_hex)
             )
             continue
 
@@ -410,7 +410,7 @@ def verify_signable(signable, authorized_pub_keys, threshold, gpg=False):
             # TODO: ✅ Make this a warning instead.
             print(
                 'Ignoring "signature" that does not look like a gpg '
-                "signature value: " + str(signature)
+                "signature value: " + ascii(signature)
             )
             continue
 
@@ -428,7 +428,7 @@ def verify_signable(signable, authorized_pub_keys, threshold, gpg=False):
                 # TODO: ✅ Make this a warning instead.
                 print(
                     'Ignoring "signature" that does not look like a hex '
-                    "signature value: " + str(signature)
+                    "signature value: " + ascii(signature)
                 )
                 continue
 
